@@ -9,6 +9,7 @@ import (
 	"sort"
 	"strconv"
 	"strings"
+	"sync"
 	"testing"
 	"unicode"
 
@@ -32,11 +33,13 @@ type RunSpec struct {
 	Files        []FileSpec        `json:"files,omitempty"` // files created before this run
 	Fuzz         []string          `json:"fuzz,omitempty"`  // hex inputs (entry fuzz): one sub-run per input
 	Entry        string            `json:"entry,omitempty"`
-	Warm         []string          `json:"warm,omitempty"` // unrelated activity before the run (history independence)
-	Expect       string            `json:"expect,omitempty"` // relation to an earlier run the specification must check
-	ExpectRun    int               `json:"expectRun,omitempty"` // which earlier run (1-based; 0 = the previous one)
-	StashPrev    bool              `json:"stashPrev,omitempty"` // move the file saved by the previous run out of testdata (to ./stash) first
-	FailfileRun  int               `json:"failfileRun,omitempty"` // -rapid.failfile=<file saved by run k> (after stashing, its new place)
+	Warm         []string          `json:"warm,omitempty"`         // unrelated activity before the run (history independence)
+	Expect       string            `json:"expect,omitempty"`       // relation to an earlier run the specification must check
+	ExpectRun    int               `json:"expectRun,omitempty"`    // which earlier run (1-based; 0 = the previous one)
+	StashPrev    bool              `json:"stashPrev,omitempty"`    // move the file saved by the previous run out of testdata (to ./stash) first
+	FailfileRun  int               `json:"failfileRun,omitempty"`  // -rapid.failfile=<file saved by run k> (after stashing, its new place)
+	FuzzFrom     []string          `json:"fuzzFrom,omitempty"`     // extra fuzz inputs: "recorded" / "pruned" words of the last recording made in an earlier run
+	FailfileFuzz int               `json:"failfileFuzz,omitempty"` // write a fail file holding the words of fuzz input j (decoded by the harness) and pass it with -rapid.failfile
 }
 
 type Scenario struct {
@@ -248,6 +251,11 @@ func RunScenario(t *testing.T, rec *Recorder, sc *Scenario) {
 	r := NewRunner(rec)
 	prevSeed, prevFile := "", ""
 	savedFiles := map[int]string{}
+	fuzzSeq := 0
+	fuzzInputs := map[int][]byte{}
+	Captured.mu.Lock()
+	Captured.haveA, Captured.haveB, Captured.enabled = false, false, true
+	Captured.mu.Unlock()
 	for i := range runs {
 		run := &runs[i]
 		if run.StashPrev && prevFile != "" {
@@ -272,6 +280,16 @@ func RunScenario(t *testing.T, rec *Recorder, sc *Scenario) {
 		}
 		if run.FailfileRun > 0 && savedFiles[run.FailfileRun] != "" {
 			extra["rapid.failfile"] = savedFiles[run.FailfileRun]
+		}
+		if run.FailfileFuzz > 0 {
+			ws := bytesToWords(fuzzInputs[run.FailfileFuzz])
+			lines := []string{"# written by the harness", ver + "#0"}
+			for _, w := range ws {
+				lines = append(lines, fmt.Sprintf("0x%x", w))
+			}
+			p := filepath.Join(dir, fmt.Sprintf("fuzz-%d.fail", run.FailfileFuzz))
+			_ = os.WriteFile(p, []byte(strings.Join(lines, "\n")), 0o664)
+			extra["rapid.failfile"] = p
 		}
 		eff := setFlags(sc.Flags, run.Flags, extra)
 		for _, w := range run.Warm {
@@ -327,8 +345,26 @@ func RunScenario(t *testing.T, rec *Recorder, sc *Scenario) {
 			rec.Emit("run.end", F{"run": i + 1, "how": "subtest", "panic": "", "failed": failed, "failnow": failed, "skipped": skipped})
 		case "fuzz":
 			fz := rapid.MakeFuzz(prop)
-			for j, hx := range run.Fuzz {
-				input, _ := hex.DecodeString(hx)
+			inputs := [][]byte{}
+			for _, hx := range run.Fuzz {
+				in, _ := hex.DecodeString(hx)
+				inputs = append(inputs, in)
+			}
+			Captured.mu.Lock()
+			for _, from := range run.FuzzFrom {
+				if from == "recorded" && Captured.haveB {
+					inputs = append(inputs, wordsToBytes(Captured.before))
+				} else if from == "pruned" && Captured.haveA {
+					inputs = append(inputs, wordsToBytes(Captured.after))
+				} else {
+					inputs = append(inputs, nil)
+				}
+			}
+			Captured.mu.Unlock()
+			for _, input := range inputs {
+				fuzzSeq++
+				j := fuzzSeq - 1
+				fuzzInputs[fuzzSeq] = input
 				status := "passed"
 				rec.Emit("fuzz.begin", F{"run": i + 1, "j": j + 1, "input": input, "n": len(input)})
 				completed := false
@@ -407,6 +443,60 @@ func warm(kind string) {
 			})
 		})
 	}
+}
+
+// Captured holds the last recording seen at prune() (hook), for replay scenarios.
+var Captured struct {
+	mu      sync.Mutex
+	before  []uint64
+	after   []uint64
+	haveB   bool
+	haveA   bool
+	enabled bool
+}
+
+func CaptureHook(ev string, kv []any) {
+	if ev != "prune.begin" && ev != "prune.end" {
+		return
+	}
+	Captured.mu.Lock()
+	defer Captured.mu.Unlock()
+	if !Captured.enabled {
+		return
+	}
+	for i := 0; i+1 < len(kv); i += 2 {
+		if kv[i] == "data" {
+			w := append([]uint64{}, kv[i+1].([]uint64)...)
+			if ev == "prune.begin" && !Captured.haveB {
+				Captured.before, Captured.haveB = w, true
+			} else if ev == "prune.end" && !Captured.haveA {
+				Captured.after, Captured.haveA = w, true
+			}
+		}
+	}
+}
+
+func wordsToBytes(ws []uint64) []byte {
+	out := make([]byte, 0, 8*len(ws))
+	for _, w := range ws {
+		for i := 0; i < 8; i++ {
+			out = append(out, byte(w>>(8*i)))
+		}
+	}
+	return out
+}
+
+// bytesToWords: the harness's own reading of the documented MakeFuzz input format
+func bytesToWords(b []byte) []uint64 {
+	var out []uint64
+	for i := 0; i < len(b); i += 8 {
+		var w uint64
+		for k := 0; k < 8 && i+k < len(b); k++ {
+			w |= uint64(b[i+k]) << (8 * k)
+		}
+		out = append(out, w)
+	}
+	return out
 }
 
 var cachedVersion string
